@@ -14,7 +14,7 @@ import (
 
 func init() {
 	suites["route"] = suite{
-		rule: "episodes on a real clusterClient over scripted nodes, single-command paths: topology (1-4 shards, replicas, holes, CLUSTER SLOTS v7 / CLUSTER SHARDS v8, plain / SendToReplicas modes, MaxMovedRedirections 0-3, retry budget 0-2, seed outside the topology), table/rslots/conns dumps after every refresh, Do/DoCache with redirect chains up to depth 4 (MOVED/ASK to known, unknown and the same node, TRYAGAIN/LOADING/CLUSTERDOWN/transport/ERR/nil), key-less commands, unowned slots (ErrNoSlot after a refresh), topology change + refresh, DoMulti/DoMultiCache batches whose commands on one source node are answered MOVED→X and ASK→X in the same round (also next to a MULTI…EXEC block); '!route' lines compare the real _pick of boundary/random slots with the specification's owner computed from the topology description, '!trace' lines judge the observed per-node logs; non-trivial = op with at least one consumed injection or a table dump",
+		rule: "episodes on a real clusterClient over scripted nodes, single-command paths: topology (1-4 shards, replicas, holes, CLUSTER SLOTS v7 / CLUSTER SHARDS v8, plain / SendToReplicas modes, MaxMovedRedirections 0-3, retry budget 0-2, seed outside the topology), table/rslots/conns dumps after every refresh, Do/DoCache with redirect chains up to depth 4 (MOVED/ASK to known, unknown and the same node, TRYAGAIN/LOADING/CLUSTERDOWN/transport/ERR/nil), key-less commands, unowned slots (ErrNoSlot after a refresh), topology change + refresh, DoMulti/DoMultiCache batches whose commands on one source node are answered MOVED→X and ASK→X in the same round (also next to a MULTI…EXEC block); '!sticky' lines judge where the next command on a slot starts after an ASK / MOVED met by the previous one (ASK to new and known nodes leaves the slot with its owner, MOVED to a new node moves it), '!route' lines compare the real _pick of boundary/random slots with the specification's owner computed from the topology description, '!trace' lines judge the observed per-node logs; non-trivial = op with at least one consumed injection or a table dump",
 		run:  runRoute,
 		replay: func(c *Ctx, lines []string) {
 			runEpisodeLines(c, lines)
@@ -40,7 +40,18 @@ type sfState struct {
 	inflight bool
 }
 
+// stickyInfo: what the previous single command on a slot met (at most one redirect), see the '!sticky' line
+type stickyInfo struct {
+	valid     bool
+	slot      int
+	prev      string // none ask mv
+	fresh     bool
+	prevFirst string
+	target    string
+}
+
 type episode struct {
+	sticky stickyInfo
 	sf    *sfState
 	s     *sim
 	vc    *rueidis.VerifCluster
@@ -120,6 +131,9 @@ func runLength(addrs []string) string {
 // exec runs one op line against the real client and records the answer(s).
 func (e *episode) exec(line string) {
 	w := strings.Fields(line)
+	if w[0] != "do" && w[0] != "cache" {
+		e.sticky = stickyInfo{} // a refresh, a batch … may legitimately change where the slot routes
+	}
 	ctx := context.Background()
 	switch w[0] {
 	case "reset":
@@ -198,6 +212,13 @@ func (e *episode) exec(line string) {
 		cl := e.vc.Client()
 		cmd := spec.build(cl.B())
 		e.register([]cmdSpec{spec}, []rueidis.Completed{cmd})
+		knownBefore := map[string]bool{}
+		{
+			addrs, _, _ := e.vc.Conns()
+			for _, a := range addrs {
+				knownBefore[a] = true
+			}
+		}
 		var res rueidis.RedisResult
 		if w[0] == "cache" {
 			res = cl.DoCache(ctx, rueidis.Cacheable(cmd), time.Minute)
@@ -216,6 +237,53 @@ func (e *episode) exec(line string) {
 		w[2] = "h=" + hint
 		e.emit(strings.Join(w, " "), ans+" | "+canon, used)
 		e.oracle([]cmdSpec{spec}, []string{ans}, raw)
+		// what did the previous command on this slot teach the client? (ASK: nothing; MOVED to a new node: the slot moved)
+		e.s.mu.Lock()
+		evs := append([]replyEvent(nil), e.s.events...)
+		e.s.mu.Unlock()
+		if st := e.sticky; st.valid && st.slot == spec.slot && spec.slot != 16384 && len(evs) > 0 && e.opt["mode"] == "plain" {
+			nowFirst := hx(evs[0].addr)
+			tg := "-"
+			if st.target != "" {
+				tg = hx(st.target)
+			}
+			e.emit(fmt.Sprintf("!sticky %s %d %s %s %s", st.prev, map[bool]int{true: 1}[st.fresh], hx(st.prevFirst), tg, nowFirst), "ok", true)
+			if st.prev == "ask" && evs[0].addr == st.target && st.target != st.prevFirst {
+				e.fails = append(e.fails, [3]string{"cluster:ask-rewrote-slot-table", strings.Join(w, " "),
+					fmt.Sprintf("after an ASK from %s to %s the next command on slot %d was sent to %s first (the slot table was rewritten by a one-shot redirect)", st.prevFirst, st.target, spec.slot, st.target)})
+			}
+		}
+		e.sticky = stickyInfo{}
+		if spec.slot != 16384 && len(evs) >= 1 && len(evs) <= 2 {
+			st := stickyInfo{valid: true, slot: spec.slot, prev: "none", prevFirst: evs[0].addr}
+			mvPre, askPre := "e:"+hx("MOVED 1 "), "e:"+hx("ASK 1 ")
+			cls := func(r string) string {
+				switch {
+				case strings.HasPrefix(r, mvPre):
+					return "mv"
+				case strings.HasPrefix(r, askPre):
+					return "ask"
+				case strings.HasPrefix(r, "x:"), strings.HasPrefix(r, "e:"+hx("TRYAGAIN")), strings.HasPrefix(r, "e:"+hx("LOADING")), strings.HasPrefix(r, "e:"+hx("CLUSTERDOWN")):
+					return "retry"
+				}
+				return "none"
+			}
+			first, last := cls(evs[0].reply), cls(evs[len(evs)-1].reply)
+			switch {
+			case len(evs) == 1 && first == "none":
+			case len(evs) == 2 && (first == "mv" || first == "ask") && last == "none":
+				pre := mvPre
+				if first == "ask" {
+					pre = askPre
+				}
+				st.prev, st.target = first, unhx(evs[0].reply[len(pre):])
+				st.fresh = !knownBefore[st.target]
+				st.valid = evs[1].addr == st.target && st.target != st.prevFirst
+			default:
+				st.valid = false
+			}
+			e.sticky = st
+		}
 	case "multi", "mcache":
 		semi := indexOf(w, ";")
 		var specs []cmdSpec
@@ -522,7 +590,7 @@ func runEpisodeLines(c *Ctx, lines []string) {
 		for try := 0; try < 6; try++ {
 			e = &episode{}
 			for _, l := range cur {
-				if strings.HasPrefix(l, "!trace") {
+				if strings.HasPrefix(l, "!trace") || strings.HasPrefix(l, "!sticky") {
 					continue // trace oracle lines are regenerated from the run
 				}
 				e.exec(l)
@@ -1106,6 +1174,68 @@ func genMixedRedirect(c *Ctx) []string {
 	return lines
 }
 
+// genSticky: a redirect met by one command, then more commands on the same slot before any refresh: ASK (to a
+// node new to the client or a known one) must leave the slot with its owner, MOVED to a new node moves it.
+func genSticky(c *Ctx) []string {
+	ver := 7 + c.Rng.IntN(2)
+	var t genTopo
+	for {
+		t = genClusterTopo(c, false)
+		if len(t.ds) >= 2 {
+			break
+		}
+	}
+	si := c.Rng.IntN(len(t.ds))
+	owner := nodeAddrOf(t.ds[si].nodes[0])
+	r := t.ds[si].ranges[c.Rng.IntN(len(t.ds[si].ranges))]
+	slot := int(r[0] + int64(c.Rng.IntN(int(r[1]-r[0]+1))))
+	target := fmt.Sprintf("10.0.9.%d:7000", 1+c.Rng.IntN(2)) // new to the client
+	if c.Rng.IntN(3) == 0 {
+		for {
+			target = t.addrs[c.Rng.IntN(len(t.addrs))]
+			if target != owner {
+				break
+			}
+		}
+	}
+	kind := []string{"ask", "ask", "mv"}[c.Rng.IntN(3)]
+	lines := []string{
+		fmt.Sprintf("reset ver=%d tls=0 mode=plain maxredir=%d retry=1 budget=%d init=%s", ver, c.Rng.IntN(3), c.Rng.IntN(2), hx(owner)),
+		"serve " + t.msg(ver, true).String(),
+		"new",
+	}
+	verb := func() string {
+		if c.Rng.IntN(4) == 0 {
+			return "cache"
+		}
+		return "do"
+	}
+	fl := func(v string) string {
+		if v == "cache" {
+			return "r"
+		}
+		return []string{"-", "t", "r"}[c.Rng.IntN(3)]
+	}
+	v := verb()
+	lines = append(lines, fmt.Sprintf("%s 0/%d/%s h=- ; %s", v, slot, fl(v), inj{addr: owner, id: 0, kind: kind, arg: target}))
+	for i, n := 0, 1+c.Rng.IntN(3); i < n; i++ {
+		v = verb()
+		var is []inj
+		switch c.Rng.IntN(4) {
+		case 0: // the importing node would send a stray command back to the owner
+			is = append(is, inj{addr: target, id: 0, kind: "mv", arg: owner})
+		case 1: // another one-shot redirect
+			is = append(is, inj{addr: owner, id: 0, kind: "ask", arg: target})
+		}
+		lines = append(lines, fmt.Sprintf("%s 0/%d/%s h=- ; %s", v, slot, fl(v), joinInj(is)))
+	}
+	lines = append(lines, "table", "conns")
+	for i := range lines {
+		lines[i] = strings.TrimSpace(lines[i])
+	}
+	return lines
+}
+
 func runCluster(c *Ctx) {
 	for i := 0; i < c.N; i++ {
 		runEpisodeLines(c, genEpisode(c, i, "batch"))
@@ -1114,6 +1244,9 @@ func runCluster(c *Ctx) {
 		}
 		if i%5 == 0 {
 			runEpisodeLines(c, genMixedRedirect(c))
+		}
+		if i%10 == 3 {
+			runEpisodeLines(c, genSticky(c))
 		}
 	}
 }
@@ -1146,6 +1279,9 @@ func runRoute(c *Ctx) {
 		runEpisodeLines(c, genEpisode(c, i, "route"))
 		if i%5 == 0 { // redirects inside a batch round: MOVED and ASK naming one node in the same round
 			runEpisodeLines(c, genMixedRedirect(c))
+		}
+		if i%4 == 1 { // what a redirect teaches: ASK nothing, MOVED to a new node the slot
+			runEpisodeLines(c, genSticky(c))
 		}
 		if i%12 == 0 {
 			runEpisodeLines(c, genHoleFill(c))
